@@ -156,6 +156,23 @@ def run(ctx):
                             t[rng.randrange(1, len(t))] = t[rng.randrange(1, len(t))][:rng.randrange(0, len(t[0]))]
             reverse = rng.random() < 0.4
             bs = rng.choice([None, None, 1, 2, 3])
+            if not same and rng.random() < 0.35:
+                # an explicit output header (a reordering or a subset of the fields): compared with sort(cat(header=...)) only
+                oh = list(outh)
+                rng.shuffle(oh)
+                oh = oh[:rng.choice([len(oh), max(1, len(oh) - 1)])]
+                hkey = rng.choice([rng.choice(oh), None, 0])
+                try:
+                    realh = util.run_show(lambda: etl.mergesort(*tables, key=hkey, reverse=reverse, buffersize=bs, missing=missing, header=oh))
+                    viah = util.run_show(lambda: etl.sort(etl.cat(*tables, missing=missing, header=oh), hkey, reverse=reverse))
+                except proto.Unencodable:
+                    realh = viah = None
+                ctx.case(('ms-header', repr(tables), repr(hkey), repr(oh), reverse, bs))
+                ctx.count('mergesort:explicit-header')
+                if realh != viah and all(len(r) == len(t[0]) for t in tables for r in t[1:]):
+                    ctx.spec_fail('mergesort|differs|explicit-header', 'mergesort(tables, header=...) differs from sort(cat(tables, header=...))',
+                                  {'op': 'mergesort', 'tables': repr(tables), 'key': repr(hkey), 'header': repr(oh), 'reverse': reverse, 'buffersize': bs,
+                                   'missing': repr(missing), 'real': realh, 'sort(cat)': viah})
             mmetas.append((tables, key, reverse, bs, same, missing))
             if same:
                 try:
